@@ -79,7 +79,7 @@ Definition ex_read (name : bytes) : option (N * res bytes * bool * res (option b
   | Ok r =>
     match get_file 48 TS TC TA TE ex_S r name with
     | (r1, Ok (Some (bs, size))) =>
-      let '(bs', data) := read_all 48 TS TC TA TE ex_S 64 bs (fun i => 1 + N.of_nat i mod 3) 0%nat [] in
+      let '(bs', data) := read_all 48 TS TC TA TE ex_S 0 64 bs (fun i => 1 + N.of_nat i mod 3) 0%nat [] in
       let '(_, h) := get_hash 48 TS TC TA TE ex_S r1 name in
       Some (size, data, match b_mode bs' with BFinish => true | _ => false end, h)
     | _ => None
